@@ -124,6 +124,64 @@ func c11Msg(r *fw.Rand, k int) *ref.Msg {
 	return m
 }
 
+// c11Twin copies a message, replacing placeholder expressions by others with the same placeholder name.
+func c11Twin(m *ref.Msg) *ref.Msg {
+	changed := false
+	swap := func(n ref.Node) ref.Node {
+		p, ok := n.(*ref.Print)
+		if !ok {
+			return n
+		}
+		d, ok := p.E.(*ref.DataRef)
+		if !ok {
+			return n
+		}
+		switch {
+		case d.Name == "s" && len(d.Acc) == 0:
+			changed = true
+			return &ref.Print{E: &ref.DataRef{Name: "m", Acc: []ref.Acc{{Kind: 0, Key: "s"}}}}
+		case d.Name == "a" && len(d.Acc) == 0:
+			changed = true
+			return &ref.Print{E: &ref.DataRef{Name: "m", Acc: []ref.Acc{{Kind: 0, Key: "a"}}}}
+		case d.Name == "m" && len(d.Acc) == 1 && d.Acc[0].Key == "s":
+			changed = true
+			return &ref.Print{E: &ref.DataRef{Name: "s"}}
+		case d.Name == "m" && len(d.Acc) == 1 && d.Acc[0].Key == "a":
+			changed = true
+			return &ref.Print{E: &ref.DataRef{Name: "a"}}
+		}
+		return n
+	}
+	var copyParts func(ns []ref.Node) []ref.Node
+	copyParts = func(ns []ref.Node) []ref.Node {
+		var out []ref.Node
+		for _, n := range ns {
+			switch n := n.(type) {
+			case *ref.Raw:
+				out = append(out, &ref.Raw{Text: n.Text})
+			case *ref.Plural:
+				p := &ref.Plural{E: n.E, Default: copyParts(n.Default)}
+				for _, c := range n.Cases {
+					p.Cases = append(p.Cases, ref.PluralCase{N: c.N, Body: copyParts(c.Body)})
+				}
+				out = append(out, p)
+			default:
+				out = append(out, swap(n))
+			}
+		}
+		return out
+	}
+	t := &ref.Msg{Desc: m.Desc + " (twin)", Meaning: m.Meaning, Body: copyParts(m.Body)}
+	if !changed {
+		return nil
+	}
+	// the twin must really have the same id (a placeholder named after both $s and $m.s in one message would get suffixes)
+	if ref.ModelMsg(t).ID != ref.ModelMsg(m).ID {
+		return nil
+	}
+	return t
+}
+
 // c11Bundle: messages at top level, in a loop, in a callee.
 func c11Bundle(r *fw.Rand) (*ref.Bundle, []*ref.Msg) {
 	var msgs []*ref.Msg
@@ -144,6 +202,15 @@ func c11Bundle(r *fw.Rand) (*ref.Bundle, []*ref.Msg) {
 		main.Body = append(main.Body, &ref.Raw{Text: "{"}, mk(), &ref.Raw{Text: "}"})
 		main.Body[len(main.Body)-3] = &ref.Special{Name: "lb"}
 		main.Body[len(main.Body)-1] = &ref.Special{Name: "rb"}
+	}
+	if r.P(2, 3) {
+		// a twin of the first message: same text and placeholder names (hence the same id and one catalogue
+		// entry), but its placeholders stand for other expressions ($s <-> $m.s, $a <-> $m.a, $t <-> $s + 'x')
+		twin := c11Twin(msgs[0])
+		if twin != nil {
+			msgs = append(msgs, twin)
+			main.Body = append(main.Body, &ref.Raw{Text: "|twin:"}, twin, &ref.Raw{Text: "|"})
+		}
 	}
 	main.Body = append(main.Body, &ref.CallT{Target: "c11.sub", NameSrc: ".sub", DataAll: true, SelfClose: true})
 	sub := &ref.Template{Name: "sub", Params: main.Params}
@@ -253,6 +320,11 @@ func init() {
 			b, msgs := c11Bundle(r)
 			src := ref.FileSrc(b.Files[0], ref.Layout{}, nil)
 			files := []srcFile{{"c11.soy", src}}
+			for _, m := range msgs {
+				if strings.HasSuffix(m.Desc, "(twin)") {
+					ctx.Obs("twin_messages", 1)
+				}
+			}
 			infos := make([]*ref.MsgInfo, len(msgs))
 			ambiguous := false
 			for k, m := range msgs {
@@ -321,7 +393,13 @@ func init() {
 			withHeader := (i/9)%2 == 0
 			omitted := map[int]bool{}
 			if kind == "partial" {
-				omitted[r.Intn(len(msgs))] = true
+				// a catalogue entry is addressed by id: leaving a message out means leaving out every message with its id
+				o := r.Intn(len(msgs))
+				for k := range msgs {
+					if infos[k].ID == infos[o].ID {
+						omitted[k] = true
+					}
+				}
 			}
 			tkind := kind
 			if kind == "partial" {
@@ -491,6 +569,9 @@ func init() {
 			var why []string
 			if obs["pot_entries"] == 0 {
 				why = append(why, "the extractor produced no entry")
+			}
+			if obs["twin_messages"] == 0 {
+				why = append(why, "no pair of different messages sharing one id was rendered")
 			}
 			if obs["reordered_placeholders_rendered"] == 0 || obs["identity_compared"] == 0 || obs["fallbacks_to_source"] == 0 || obs["go_js_compared"] == 0 {
 				why = append(why, "one of the catalogue kinds / oracles never ran")
